@@ -3,8 +3,8 @@ from harness import common, cfg, cfgprop
 
 PROP = 'C11'
 DRIVER = 'Cfg'
-LEAN_TARGETS = ['TxV.Props.C11']
-PROP_MODULES = ['TxV.Props.C11']
+LEAN_TARGETS = ['TxV.Props.C11', 'TxV.Props.C11b']
+PROP_MODULES = ['TxV.Props.C11', 'TxV.Props.C11b']
 AUDIT = 'Audit/C11.lean'
 ANCHORS = ['txtorcon/torconfig.py', 'txtorcon/torcontrolprotocol.py']
 RULE = ('option tables drawn from a pool covering every declared type (LineList, FooPort/FooPortLines/__FooPort port lists, CommaList, RouterList, '
@@ -32,7 +32,53 @@ def tagger(c, im):
         (lists >= 1 or len(confs) >= 2)
 
 
-run_cases = cfgprop.make_run_cases(tagger, check_views=True, keys=('reads',))
+_base_run_cases = cfgprop.make_run_cases(tagger, check_views=True, keys=('reads',))
+
+
+def attach_line(c):
+    """the attach of a case whose configuration changes while the view is being built, for the model of the attach phase
+    (`TxV.Attach`, theorems in Props/C11b.lean): options in the order Tor lists them, what Tor holds at the start, the
+    `__FooPort` twins, and the announcement with the number of answers that precede it; values are numbered"""
+    tab = cfg.Table(c)
+    defaults = c.get('defaults') or {}
+    ids = {}
+
+    def vals(vs):
+        return '.'.join(str(ids.setdefault(v, len(ids) + 1)) for v in vs) or '-'
+    opts = ','.join('%d:%s' % (tab.idx[n], 'p' if tab.types[n] == 'PortLines' and n not in defaults else 's') for n in tab.names)
+    start = dict(c['store'])
+    for k, old in c['mid']['old'].items():
+        start[k] = old
+    shown = {n: (list(start.get(n, [])) or ([tab.numeric_default[n]] if n in tab.numeric_default else [])) for n in tab.names}
+    store = ';'.join('%d=%s' % (tab.idx[n], vals(shown[n])) for n in tab.names)
+    fb = ';'.join('%d=%s' % (tab.idx[n], vals(c['store'].get('__' + n, [])[-1:])) for n in tab.names if tab.types[n] == 'PortLines') or '-'
+    evs = '|'.join('%d:%d=%s' % (c['mid']['after'], tab.idx[k], vals(c['store'].get(k, []))) for k in c['mid']['old']) or '-'
+    return 'attach 1 %s %s %s %s' % (opts, store, fb, evs), {v: k for k, v in ids.items()}
+
+
+def run_cases(cases, drv, tier):
+    res = _base_run_cases(cases, drv, tier)
+    mids = [(i, c) for i, c in enumerate(cases) if c.get('mid')]
+    if drv is None or not mids:
+        return res
+    lines = [attach_line(c) for _, c in mids]
+    outs = drv.run([l for l, _ in lines])
+    for (i, c), (_, back), o in zip(mids, lines, outs):
+        tab = cfg.Table(c)
+        got = res[i].impl['trace'][0]['reads']
+        want = {}
+        for kv in o.split(';'):
+            k, v = kv.split('=')
+            n = tab.names[int(k)]
+            want[n] = None if v == '~' else cfgprop.view_of(tab, n, [] if v == '-' else [back[int(x)] for x in v.split('.')], c.get('defaults') or {}, c['store'])
+        bad = {n: [got.get(n), want[n]] for n in want if want[n] is not None and got.get(n) != want[n]}
+        if bad or o == 'bad-op':
+            res[i].corr_ok = False
+            res[i].model = {'attach-model-differs': bad, 'base': res[i].model}
+    return res
+
+
+run_cases.project = _base_run_cases.project
 
 
 def corpus():
